@@ -10,7 +10,7 @@ use crate::refmap::{MapSet, UNDECODABLE};
 use crate::refnest::*;
 use crate::rng::{Digest, Rng};
 use crate::simio::*;
-use crate::simjar::{build_jar, open_entries, EntryData, SimJar};
+use crate::simjar::{build_jar, open_entries, EntryData, LazyJar, SimJar};
 use duke::tree::class::{InnerClassFlags, ObjClassName};
 use duke::tree::method::{MethodDescriptor, MethodName, MethodNameAndDesc};
 use dukebox::storage::{ClassRepr, IsClass, JarEntryEnum, ParsedJar};
@@ -425,7 +425,7 @@ fn refusal_slug(e: &anyhow::Error) -> String {
     out.trim_matches('-').to_string()
 }
 
-fn call_nest_jar(jar: &SimJar, nests: &Nests<SrcNs>) -> Result<anyhow::Result<ParsedJar<ClassRepr, Vec<u8>>>, String> {
+fn call_nest_jar(jar: &impl dukebox::storage::Jar, nests: &Nests<SrcNs>) -> Result<anyhow::Result<ParsedJar<ClassRepr, Vec<u8>>>, String> {
     let n = nests.clone();
     no_panic(|| dukenest::nest_jar(true, jar, n))
 }
@@ -846,6 +846,51 @@ impl Engine for C14 {
             }
         }
 
+        // ================= the entry-level seam: the same entries behind a LazyJar
+        if let Some(lp) = &p.lazy {
+            let lj = LazyJar::new(entries.clone(), lp);
+            let res = call_nest_jar(&lj, &nests);
+            lj.report(st);
+            let failed = lj.failed() > 0;
+            let tier = if failed { "T2" } else { "T1" };
+            st.tier(if failed { "T2" } else { "T1" });
+            obs.u64(0x1a2);
+            match res {
+                Err(pm) => out.push(Violation::new(tier, "panic", format!("nest_jar:{}", panic_path(&pm)), pm)),
+                Ok(Err(e)) => {
+                    obs.u64(2);
+                    if failed {
+                        st.probe("lazy.err_after_failed_entry_operation");
+                    } else if t0_obs.is_some() {
+                        out.push(Violation::new("T1", "schedule-dependence", "lazy.nest_jar.result", format!("fails on a jar that hands out its entries one by one although no entry operation failed: {e:#}")));
+                    }
+                }
+                Ok(Ok(r)) => {
+                    obs.u64(1);
+                    // the data is intact whatever failed in between: an answer must be THE answer
+                    match (observe(&r), &t0_obs) {
+                        (Ok(o), Some(t0)) => {
+                            if failed {
+                                st.probe("lazy.ok_after_failed_entry_operation");
+                            }
+                            if *t0 != o {
+                                let d = t0.iter().find(|(k, v)| o.get(*k) != Some(v)).map(|x| x.0.clone()).or_else(|| o.keys().find(|k| !t0.contains_key(*k)).cloned());
+                                let (class, what) = if failed { ("reader-ok-with-wrong-data", "Ok although an entry operation failed, and") } else { ("schedule-dependence", "no entry operation failed, but") };
+                                out.push(Violation::new(tier, class, "lazy.nest_jar.entries", format!("{what} entry {d:?} differs from the result on the zip-backed jar")));
+                            }
+                        }
+                        (Ok(_), None) => out.push(Violation::new(tier, "schedule-dependence", "lazy.nest_jar.result", "fails on the zip-backed jar, succeeds on the entry-by-entry jar")),
+                        (Err(mut v), t0) => {
+                            v.tier = tier.into();
+                            if t0.is_some() {
+                                out.push(v);
+                            }
+                        }
+                    }
+                }
+            }
+        }
+
         // ================= T2: the table text, torn / flipped
         if let (Some(t), false) = (&text, p.text_faults.is_empty()) {
             st.tier("T2");
@@ -891,6 +936,15 @@ impl Engine for C14 {
                 $body
                 c.push($q);
             }};
+        }
+        if let Some(lp) = &p.lazy {
+            cand!(q, { q.lazy = None; });
+            for i in 0..lp.fail_at.len() {
+                cand!(q, { if let Some(l) = q.lazy.as_mut() { l.fail_at.remove(i); } });
+            }
+            if !lp.io.is_plain() {
+                cand!(q, { if let Some(l) = q.lazy.as_mut() { l.io = IoPlan::plain(); } });
+            }
         }
         for io in shrink_io(&p.jar_io) {
             cand!(q, { q.jar_io = io; });
@@ -976,7 +1030,7 @@ impl Engine for C14 {
     }
 
     fn size(&self, p: &Plan) -> (u64, u64) {
-        ((p.classes.len() + p.others.len() + p.nests.len() + p.m.count() + p.classes.iter().map(|c| c.edits.len()).sum::<usize>()) as u64, (p.jar_io.faults.len() + p.text_faults.len()) as u64)
+        ((p.classes.len() + p.others.len() + p.nests.len() + p.m.count() + p.classes.iter().map(|c| c.edits.len()).sum::<usize>()) as u64, (p.jar_io.faults.len() + p.text_faults.len() + p.lazy.as_ref().map_or(0, |l| l.fail_at.len())) as u64)
     }
 
     fn rule(&self) -> String {
